@@ -113,11 +113,17 @@ class WeibullFailureModel:
         # Panel reliability
         tube_multipliers = np.array(
             [
-                [t.multiplier_val for (ti, t) in p.tubes.items()]
+                t.multiplier_val
                 for (pi, p) in receiver.panels.items()
+                for (ti, t) in p.tubes.items()
             ]
         )
-        panel = np.sum(tube.reshape(receiver.npanels, -1) * tube_multipliers, axis=1)
+        # Panels need not all have the same number of tubes
+        ends = np.cumsum([p.ntubes for p in receiver.panels.values()])
+        weighted = tube * tube_multipliers
+        panel = np.array(
+            [np.sum(weighted[s:e]) for s, e in zip([0] + list(ends[:-1]), ends)]
+        )
 
         # Overall reliability
         overall = np.sum(panel)
